@@ -245,7 +245,7 @@ def job(chk, idxs):
 def body(chk):
     n = len(all_cases(chk))
     idx = list(range(n))
-    if chk.quick and n > 900:
+    if chk.quick and n > 2500:            # (the whole family is cheap enough for the quick tier: the draw only applies should it grow much further)
         core = [i for i, (l, _) in enumerate(all_cases(chk)) if l.startswith(('two params', 'two functions', 'constructor assigns', 'split over two contracts')) or 'in the header of' in l or (' on direct in public_function @ statement, ctor=None' in l) or (' on direct in constructor @ statement, ctor=None' in l) or ('no write, ctor=' in l and l.startswith(('x:ui', 'x:ad', 'x:by', 'x:in')))]
         chk.rng.shuffle(idx)
         idx = sorted(set(idx[:900]) | set(core))
